@@ -435,7 +435,9 @@ func UnmarshalError(r xml.TokenReader) (Error, error) {
 	iter := xmlstream.NewIter(r)
 	for iter.Next() {
 		start, p := iter.Current()
-		if start.Name.Local != "error" {
+		// Current returns a nil start element for children that are not elements
+		// (eg. whitespace in front of the error payload).
+		if start == nil || start.Name.Local != "error" {
 			continue
 		}
 
